@@ -271,14 +271,13 @@ func (f *Filter) ApplyValue(val float64, count int) {
 	case Average, Sum:
 		f.stats += val
 	case Min:
-		value := val
-		if f.stats > value || f.stats == -1 {
-			f.stats = value
+		// statsCount tells whether a value has been seen yet, -1 and 0 are ordinary values
+		if count > 0 && (f.statsCount == 0 || f.stats > val) {
+			f.stats = val
 		}
 	case Max:
-		value := val
-		if f.stats < value {
-			f.stats = value
+		if count > 0 && (f.statsCount == 0 || f.stats < val) {
+			f.stats = val
 		}
 	default:
 		panic("not implemented stats type")
